@@ -1211,10 +1211,13 @@ public:
                      DIdxSet* intVars  = nullptr)
    {
       bool ok;
-      char c;
+      char c = '\0';
 
-      in.get(c);
-      in.putback(c);
+      // for an empty stream nothing is extracted (c keeps its initial value and the LP-format reader is used)
+      if(in.get(c))
+         in.putback(c);
+      else
+         in.clear();
 
       /* MPS starts either with a comment mark '*' or with the keyword 'NAME' at the first column.  LPF starts either
        * with blanks, a comment mark '\' or with the keyword "MAX" or "MIN" in upper or lower case.  There is no
